@@ -6,6 +6,7 @@ import os, re, sys
 sys.path.insert(0, os.path.join(os.path.dirname(os.path.abspath(__file__)), "..", "lib"))
 import vf
 
+KNOWN_ABORT = "spawn_abort_closed_stdio"
 TERM_SIGS = [1, 2, 9, 10, 12, 13, 14, 15]        # default action: terminate, no core
 CORE_SIGS = [3, 6, 8, 11]                        # terminate (+core, disabled by RLIMIT_CORE 0)
 
@@ -158,6 +159,48 @@ def gen_exits(rng, maxn):
     return " ".join(toks)
 
 
+IDS = [0, 65534, 1000]
+TRIPLES = [(r, e, sv) for r in IDS for e in IDS for sv in IDS if e == 0 or sv == 0]   # enough privilege kept
+
+
+def creds_case(ut, gt, su, sg, stdio="-", code=0, extra=""):
+    fl = "R" + ("" if su is None else "u%d" % su) + ("" if sg is None else "g%d" % sg) + extra
+    return "L15 r V%d,%d,%d U%d,%d,%d S0:%s:x%d:-:%s S1:-:x7:-:- D" % (gt + ut + (stdio, code, fl))
+
+
+def gen_creds(rng, nrandom):
+    """uv_spawn with UV_PROCESS_SETUID/SETGID from parents whose real/effective/saved ids differ."""
+    out = []
+    for ut in TRIPLES:                       # every uid situation x every requested uid
+        for su in [None] + IDS:
+            out.append(creds_case(ut, rng.choice(TRIPLES), su, rng.choice([None] + IDS), code=len(out) % 200))
+    for gt in TRIPLES:                       # every gid situation x every requested gid
+        for sg in [None] + IDS:
+            out.append(creds_case(rng.choice(TRIPLES), gt, rng.choice([None] + IDS), sg, code=len(out) % 200))
+    for _ in range(nrandom):
+        out.append(creds_case(rng.choice(TRIPLES), rng.choice(TRIPLES), rng.choice([None] + IDS),
+                              rng.choice([None] + IDS), stdio=rng.choice(["-", "i,i,i", "h0,h1,h2", "p,h1", "i,p,p,h0"]),
+                              code=rng.randrange(256), extra=rng.choice(["", "", "", "E"])))
+    return out
+
+
+def gen_closed_stdio(rng):
+    """every subset of {0,1,2} closed in the parent x every stdio list of length 0..3 over
+    ignore / create-pipe / inherit (of an open descriptor 5)"""
+    out = []
+    lists = [[]]
+    for n in (1, 2, 3):
+        lists += [[a] + l for a in ("i", "p", "h5") for l in lists if len(l) == n - 1]
+    for mask in range(8):
+        closes = " ".join("c%d" % fd for fd in (0, 1, 2) if mask >> fd & 1)
+        for l in lists:
+            fl = "R" + ("E" if rng.random() < 0.2 else "")
+            out.append(" ".join(x for x in ["L15 f5=1n", closes, "r",
+                                            "S0:%s:x%d:-:%s" % (",".join(l) or "-", len(out) % 200, fl),
+                                            "S1:-:x7:-:-", "D"] if x))
+    return out
+
+
 CORPUS = [
     # regression (fixed by /repo a79de05): the error pipe lands on 4 < stdio_count 6 and slot 4 is
     # mapped; before the fix the exec failure was reported as success
@@ -205,6 +248,12 @@ def parse_table(s):
     return out
 
 
+def flag_ids(fl):
+    """(setuid, setgid) requested by the flags of a spawn token"""
+    mu, mg = re.search(r"u(\d+)", fl), re.search(r"g(\d+)", fl)
+    return (int(mu.group(1)) if mu else None, int(mg.group(1)) if mg else None)
+
+
 def spawn_fields(tok):
     f = tok[1:].split(":")
     return int(f[0]), ([] if f[1] == "-" else f[1].split(",")), f[2], (None if f[3] == "-" else int(f[3])), \
@@ -214,8 +263,11 @@ def spawn_fields(tok):
 class Impl:
     """What the harness printed for one case, tokenised."""
 
-    def __init__(self, case, line):
+    def __init__(self, case, line, debug=False):
         self.case, self.line = case, line
+        self.debug = debug          # assert-enabled flavour of libuv
+        self.abort = None           # (h, assertion text): abort() inside uv_spawn
+        self.pcreds = {}
         self.bad = None
         self.toks = line.split()
         self.files = {}
@@ -243,6 +295,14 @@ class Impl:
                 c = t[0]
                 if t.startswith("stuck:"):
                     self.stuck += [int(x) for x in t[6:].split(",")]
+                elif t.startswith("abort:"):
+                    _, h, txt = t.split(":", 2)
+                    self.abort = (int(h), txt.replace("_", " ").strip())
+                    break
+                elif c == "I":
+                    h, v = t[1:].split(":")
+                    u, g = v.split("/")
+                    self.pcreds[int(h)] = (tuple(int(x) for x in u.split(".")), tuple(int(x) for x in g.split(".")))
                 elif c == "F":
                     n, ident = t[1:].split("=")
                     self.files[ident] = int(n)
@@ -260,7 +320,11 @@ class Impl:
                     self.spawns[int(h)]["Q"] = parse_table(tb)
                 elif c == "c":
                     h, tb = t[1:].split(":", 1)
-                    self.spawns[int(h)]["c"] = None if tb == "-" else parse_table(tb)
+                    parts = tb.split("|")
+                    self.spawns[int(h)]["c"] = None if parts[0] == "-" and len(parts) == 1 else parse_table(parts[0])
+                    if len(parts) == 4:
+                        self.spawns[int(h)]["ccreds"] = (tuple(int(x) for x in parts[1].split(".")),
+                                                         tuple(int(x) for x in parts[2].split(".")), int(parts[3]))
                 elif c == "t":
                     h, rest = t[1:].split(":", 1)
                     st = {}
@@ -308,10 +372,15 @@ class Impl:
             self.bad = "unparsable harness output (%s)" % e
             return
         for h, sp in self.spawns.items():
+            if self.abort and self.abort[0] == h:
+                sp["abort"] = self.abort[1]
+                continue
             if "ret" not in sp or "Q" not in sp:
                 self.bad = "spawn %d did not return" % h
                 return
-        if self.z is None:
+        if self.abort and self.abort[0] not in self.spawns:
+            self.bad = "abort() outside uv_spawn: %s" % self.abort[1][:120]
+        elif self.z is None and not self.abort:
             self.bad = "case did not reach its end"
 
     def fid(self, ident, order=0):
@@ -343,13 +412,16 @@ def model_input(im):
                 im.fid(e[0], nsp)
             nsp += 1
             spf = "-"
+            su, sg = flag_ids(fl)
+            uc, gc = im.pcreds.get(v, ((0, 0, 0), (0, 0, 0)))
             m = re.search(r"s(\d+)", fl)
             if m:
                 spf = m.group(1)
             tb = ",".join("%d=%d/%d" % (fd, im.fid(e[0]), e[1]) for fd, e in sorted(sp["P"].items())) or "-"
-            ops.append("S %d %d %d %d %s %d %d %s %x ; %s ; %s ; %s" % (
+            ops.append("S %d %d %d %d %s %d %d %s %x %s %s %s %s ; %s ; %s ; %s" % (
                 v, v, 0 if "N" in fl else 1, 1000 + 100 * v, spf, 1 if "p" in fl else 0,
                 1 if "f" in fl else 0, "2" if "E" in fl else "-", sp.get("mask", (0, 0))[0],
+                "%d.%d.%d" % uc, "%d.%d.%d" % gc, "-" if su is None else su, "-" if sg is None else sg,
                 ",".join(sc["stdio"]) or "-", tb, " ".join(sp["b"])))
         elif kind == "W":
             ops.append("W " + " ".join(a for _, a in v))
@@ -392,6 +464,9 @@ def canon_impl(im):
             if not first:
                 nsp[0] += 1
             first = False
+            if "abort" in sp:
+                out.append("abort%d" % v)        # abort() inside this uv_spawn: nothing after it
+                break
             out.append("s%d:%d:%d" % (v, sp["ret"], sp["active"]))
             if "R" in sc["flags"]:
                 c = sp.get("c")
@@ -402,6 +477,9 @@ def canon_impl(im):
                 out.append("t%d:%s" % (v, ";".join("%d=%s/%s" % (s, fd, ".".join(map(str, tg)))
                                                     for s, (fd, tg) in sorted(st.items()) if fd != "-")))   # "-": stream never opened
             out.append("M%d:%x" % (v, sp.get("mask", (0, -1))[1]))
+            if "R" in sc["flags"]:
+                cc = sp.get("ccreds")
+                out.append("i%d:%s" % (v, "-" if cc is None else "%d.%d.%d/%d.%d.%d" % (cc[0] + cc[1])))
             b = [a for a in sp["b"] if a != "E"]
             if b:
                 out.append("b%d:%s" % (v, b[-1]))
@@ -442,6 +520,7 @@ def canon_model(im, line):
             cfull = toks[i + 2].split(":", 1)[1]
             streams = toks[i + 3].split(":", 1)[1]
             i += 4
+            start = len(out)
             out.append(t)
             report = "R" in im.script[h]["flags"]
             ctab = None
@@ -472,6 +551,19 @@ def canon_model(im, line):
             if i < len(toks) and toks[i].startswith("M%d:" % h):
                 out.append(toks[i])
                 i += 1
+            if i < len(toks) and toks[i].startswith("i%d:" % h):
+                if report:
+                    out.append(toks[i])
+                i += 1
+            if i < len(toks) and toks[i].startswith("a%d:" % h):
+                trip = toks[i].endswith(":1")
+                i += 1
+                if trip and im.debug:
+                    # an assert-enabled build stops here: uv__close(fd <= 2) inside uv_spawn
+                    del out[start:]
+                    out.append("abort%d" % h)
+                    sizes = {}
+                    break
             if i < len(toks) and toks[i].startswith("b%d:" % h):
                 out.append(toks[i])
                 i += 1
@@ -489,9 +581,18 @@ def canon_model(im, line):
 # the property on the implementation's own trace
 # --------------------------------------------------------------------------
 def monitor_impl(im):
-    """Returns (reason, is_error_pipe_symptom)."""
+    """Returns (reason, kind): kind True = looks like an overwritten error pipe, "abort" =
+    abort() inside uv_spawn, else False."""
     if im.bad:
         return im.bad, False
+    if im.abort:
+        h, txt = im.abort
+        closed = sorted({0, 1, 2} - set(im.spawns[h]["P"]))
+        m = re.search(r"Assertion .*? failed", txt)
+        return ("uv_spawn of child %d aborted (%s) with descriptors {%s} closed in the parent, stdio %s; "
+                "the forked child is never reaped or reported" %
+                (h, m.group(0) if m else ("abort(), stderr closed" if txt in ("", "-") else txt[:100]),
+                 ",".join(map(str, closed)), ",".join(im.script[h]["stdio"]) or "none")), "abort"
     steps = im.case.split()
     closed_at, stolen, killed = {}, set(), {}
     for idx, t in enumerate(steps):
@@ -535,13 +636,19 @@ def monitor_impl(im):
         closed_src = [x for x in bad_src if x != "b"]
         # a closed source descriptor is outside the property (whatever the spawn itself opens on
         # that number gets inherited): only consistency is demanded, by the outcome
-        must_fail = "E" in fl or inject or "b" in stdio or (bool(closed_src) and sp["ret"] != 0)
+        su, sg = flag_ids(fl)
+        uc, gc = im.pcreds.get(h, ((0, 0, 0), (0, 0, 0)))
+        priv = uc[1] == 0
+        eperm = (sg is not None and not priv and sg not in (gc[0], gc[2])) or \
+                (su is not None and not priv and su not in (uc[0], uc[2]))
+        must_fail = "E" in fl or inject or "b" in stdio or eperm or (bool(closed_src) and sp["ret"] != 0)
         npipes = sum(1 for s in stdio if s == "p")
         if must_fail:
             if sp["ret"] == 0 or sp["active"]:
                 return ("uv_spawn of child %d returned %d (active=%d) although %s" %
                         (h, sp["ret"], sp["active"],
-                         "the program does not exist" if "E" in fl else "a step of the spawn failed"),
+                         "the program does not exist" if "E" in fl else
+                         ("the kernel refuses the requested uid/gid" if eperm else "a step of the spawn failed")),
                         "E" in fl and not inject and "b" not in stdio)
             if h in nx:
                 return "exit_cb ran for child %d whose spawn failed" % h, False
@@ -590,6 +697,20 @@ def monitor_impl(im):
                             return "child %d: descriptor %d is %s, expected a fresh socket" % (h, i, got), False
                         if tg is None or tg[1] != [i]:
                             return "child %d: stream of slot %d is connected to child descriptors %s" % (h, i, tg), False
+                cc = sp.get("ccreds")
+                if cc is not None:
+                    def expect(req, cur):
+                        if req is None:
+                            return (cur[0], cur[1], cur[1])          # execve: saved := effective
+                        return (req, req, req) if priv else (cur[0], req, req)
+                    wu, wg = expect(su, uc), expect(sg, gc)
+                    if cc[0] != wu or cc[1] != wg:
+                        return ("child %d runs with uid %d.%d.%d gid %d.%d.%d (real.effective.saved), expected uid "
+                                "%d.%d.%d gid %d.%d.%d: UV_PROCESS_SETUID %s / UV_PROCESS_SETGID %s requested by a "
+                                "parent with uid %d.%d.%d gid %d.%d.%d" %
+                                ((h,) + cc[0] + cc[1] + wu + wg + (su, sg) + uc + gc)), False
+                    if (su is not None or sg is not None) and priv and cc[2] != 0:
+                        return "child %d keeps %d supplementary groups after dropping privileges" % (h, cc[2]), False
                 for d, e in sorted(c.items()):
                     if d >= count:
                         p = P.get(d)
@@ -638,6 +759,10 @@ def main():
         lib = vf.build_libuv(chk.scratch, "ndebug")
         hsp = vf.cc_harness(chk.scratch, "c12_spawn", ["c12_spawn.c"], lib=lib,
                             wraps=["waitpid", "fork", "socketpair", "pipe2"])
+        libd = vf.build_libuv(chk.scratch, "debug")           # assertions on, as the default cmake build
+        hspd = vf.cc_harness(chk.scratch, "c12_spawn_dbg", ["c12_spawn.c"], lib=libd, flavour="debug",
+                             wraps=["waitpid", "fork", "socketpair", "pipe2"])
+        os.chmod(chk.scratch.dir, 0o755)      # children exec the harness after dropping to uid 1000 / 65534
         hst = vf.cc_harness(chk.scratch, "c12_status", ["c12_status.c"], lib=None, libs=())
         model = vf.model_bin("C12")
     except vf.BuildError as e:
@@ -663,7 +788,10 @@ def main():
     nsh, nex = (15000, 8000) if thorough else (700, 350)
     if chk.replay:
         nsh, nex = 0, 0
-    cases = corpus + [gen_shuffle(rng) for _ in range(nsh)] + [gen_exits(rng, 30 if thorough else 16) for _ in range(nex)]
+    shuffles = [gen_shuffle(rng) for _ in range(nsh)]
+    exits = [gen_exits(rng, 30 if thorough else 16) for _ in range(nex)]
+    special = [] if chk.replay else gen_creds(rng, 1500 if thorough else 120) + gen_closed_stdio(rng)
+    cases = corpus + shuffles + exits + special
     wdir = os.path.join(chk.scratch.dir, "c12files")
     os.makedirs(wdir, exist_ok=True)
     impl_lines, rc, err = vf.run_lines([hsp, wdir], cases, shards=8, timeout=900)
@@ -688,7 +816,7 @@ def main():
     def monitor(case, impl_canon):
         im, agree = by_case[case]
         reason, symptom = monitor_impl(im)
-        if reason and symptom:
+        if reason and symptom is True:
             reason += " [what an overwritten exec-error pipe looks like, cf. /repo a79de05]"
         return reason
     vf.diff_cases(chk, "process.c uv_spawn/uv__process_child_init/uv__wait_children = Model/Process.v",
@@ -700,9 +828,44 @@ def main():
         stats["exit_callbacks"] += len(im.exits)
         stats["reports"] += sum(1 for sp in im.spawns.values() if sp.get("c"))
         stats["failed_spawns"] += sum(1 for sp in im.spawns.values() if sp["ret"] != 0)
+    # (2) the same against an assert-enabled libuv: corpus, the credential and closed-stdio
+    # scenarios and a slice of the random cases
+    dcases = corpus + special + shuffles[:len(shuffles) // 4] + exits[:len(exits) // 4]
+    dlines, rc, err = vf.run_lines([hspd, wdir], dcases, shards=8, timeout=900)
+    if len(dlines) != len(dcases):
+        chk.violation("assert-enabled harness produced %d lines for %d cases" % (len(dlines), len(dcases)),
+                      {"kind": "correspondence", "stderr": (err or "")[-2000:]}, found_input=False)
+        chk.finish(rule="harness failed")
+    dimpls = [Impl(c, l, debug=True) for c, l in zip(dcases, dlines)]
+    dmin = [model_input(im) if not im.bad else "" for im in dimpls]
+    dmodel, rc2, err2 = vf.run_lines([model, "run"], dmin, shards=8)
+    if len(dmodel) != len(dcases):
+        chk.violation("model produced %d lines for %d cases" % (len(dmodel), len(dcases)),
+                      {"kind": "correspondence", "stderr": (err2 or "")[-2000:]}, found_input=False)
+        chk.finish(rule="model failed")
+    da = [canon_impl(im) if not im.bad else "BAD " + im.bad for im in dimpls]
+    db = [canon_model(im, ml) if not im.bad else "" for im, ml in zip(dimpls, dmodel)]
+    dby = {c: (im, x == y) for c, im, x, y in zip(dcases, dimpls, da, db)}
+    known_abort = chk.match_known(KNOWN_ABORT)
+    stats["aborts_in_uv_spawn"] = 0
+
+    def dmonitor(case, impl_canon):
+        im, agree = dby[case]
+        reason, kind = monitor_impl(im)
+        if reason and kind == "abort":
+            stats["aborts_in_uv_spawn"] += 1
+            if agree and known_abort:
+                # exactly where the faithful model says uv__close() gets a descriptor <= 2
+                chk.known_hit(known_abort)
+                return None
+            return reason + " [replay: " + case + "]"
+        return reason
+    vf.diff_cases(chk, "process.c (assert-enabled build) = Model/Process.v with r_trip", dcases, da, db, dmonitor)
     chk.cov["c12"] = stats
     chk.cov["shuffle_cases"] = nsh
     chk.cov["exit_cases"] = nex
+    chk.cov["credential_and_closed_stdio_cases"] = len(special)
+    chk.cov["assert_enabled_cases"] = len(dcases)
     if nsh and nex:
         chk.sample({"case": cases[len(corpus)], "impl": ca[len(corpus)][:400]})
         chk.sample({"case": cases[len(corpus) + nsh], "impl": ca[len(corpus) + nsh][:400]})
